@@ -55,7 +55,7 @@ func ConfigLine(t *rapid.T) string {
 }
 
 func nearConfigLine(t *rapid.T) string {
-	return pick(t, []string{"Key: v", "kEy: v", "key : v", "9key: v", "key:v", "Ünit: x", "k\u00a0x: v", "k\xffx: v", ": v", "key", "key:: v", "k: ", " key: v", "k\u0085: v", "ǅ: titlecase", "ﬁ: ligature", "_k: v", "é:", "goos:linux", "goos:\u00a0linux", "goos:\u2003x", "k:\v x", "unit: x", "benchmark: y", "goos: ", "pkg:\t"}, "nearcfg")
+	return pick(t, []string{"Key: v", "kEy: v", "key : v", "9key: v", "key:v", "Ünit: x", "k\u00a0x: v", "k\xffx: v", ": v", "key", "key:: v", "k: ", " key: v", "k\u0085: v", "ǅ: titlecase", "ﬁ: ligature", "_k: v", "é:", "goos:linux", "goos:\u00a0linux", "goos:\u2003x", "k:\v x", "goos:\fplan9", "note:\vx", "pkg:\f", "goos:\rlinux", "pkg:\v", "k:\f v", "unit: x", "benchmark: y", "goos: ", "pkg:\t"}, "nearcfg")
 }
 
 // UnitLine returns a unit metadata line, valid or malformed.
@@ -105,7 +105,7 @@ func BenchLine(t *rapid.T) string {
 	iters := strconv.Itoa(rapid.IntRange(0, 100000).Draw(t, "iters"))
 	if vcase.OneIn(t, 12, "longiters") {
 		// counts of 19 and more characters leave the integer parser's fast path
-		iters = pick(t, []string{"0000000000000000000100", "1000000000000000000", "9223372036854775807", "9223372036854775808", "0000000000000000000", "000000000000000000000000000000007", "1_000_000_000_000_000_000", "00000000000000000001e3", "999999999999999999", "+000000000000000000012"}, "longit")
+		iters = pick(t, []string{"0000000000000000000100", "1000000000000000000", "9223372036854775807", "9223372036854775808", "0000000000000000000", "000000000000000000000000000000007", "1_000_000_000_000_000_000", "00000000000000000001e3", "999999999999999999", "+000000000000000000012", "5000000000000000000", "9223372036854775806", "-100000000000000000", "-9223372036854775808", "9999999999999999999", "-", "+"}, "longit")
 	}
 	sb.WriteString("Benchmark" + name + sep(t) + iters)
 	nm := rapid.IntRange(1, 4).Draw(t, "nmeas")
